@@ -206,7 +206,9 @@ class Machine:
                 self._as_raw_time(self._reg.duration))
 
     def _color_matrix(self) -> None:
-        color = self._reg.get_color()
+        # Staged as a raw colour, converted with the units in force now: a
+        # "units" command further down the block must not reinterpret it.
+        color = self._as_raw_color(self._reg.get_color())
         mat = self._reg.matrix
         # Division and interpolating loops produce floats such as 2.0.
         rect = Rect(*(
@@ -222,7 +224,6 @@ class Machine:
             return
         if light is not None:
             matrix = self._reg.matrix
-            matrix = self._as_raw_matrix(matrix)
             matrix.find_replace(None, self._reg.default or [0, 0, 0, 0])
             duration = self._as_raw_time(self._reg.duration)
             light.set_matrix(matrix, duration)
